@@ -143,6 +143,15 @@ theorem grows_splitEdge (s : St) (e : Nat) (p : Pt) (d : Nat) : Grows s (s.split
   extract_lets
   count_pushes
 
+/-- constraint flags are not part of the element counts -/
+theorem grows_markFlag (s : St) (e : Nat) : Grows s (s.markFlag e) 0 0 0 :=
+  ⟨rfl, rfl, rfl, rfl, rfl, fun _ _ => rfl, fun _ _ => rfl⟩
+theorem grows_splitFlags (s : St) (b : Bool) (e0 e1 : Nat) : Grows s (s.splitFlags b e0 e1) 0 0 0 := by
+  unfold splitFlags
+  split
+  · exact Grows.trans (k1 := 0) (e1 := 0) (f1 := 0) (grows_markFlag s e0) (grows_markFlag _ e1)
+  · exact Grows.refl s
+
 theorem grows_legalizeLoop (fully : Bool) (fuel : Nat) (s : St) (stack : List Nat) :
     Grows s (legalizeLoop fully fuel s stack) 0 0 0 := by
   induction fuel generalizing s stack with
@@ -155,8 +164,10 @@ theorem grows_legalizeLoop (fully : Bool) (fuel : Nat) (s : St) (stack : List Na
       split
       · exact ih s rest
       · split
-        · exact Grows.trans (k1 := 0) (e1 := 0) (f1 := 0) (grows_flipCw s (e / 2)) (ih _ _)
         · exact ih s rest
+        · split
+          · exact Grows.trans (k1 := 0) (e1 := 0) (f1 := 0) (grows_flipCw s (e / 2)) (ih _ _)
+          · exact ih s rest
 
 theorem grows_legalizeEdge (s : St) (e : Nat) (fully : Bool) : Grows s (s.legalizeEdge e fully) 0 0 0 :=
   grows_legalizeLoop _ _ _ _
@@ -256,7 +267,7 @@ def IsUpdate (s t : St) (v d : Nat) : Prop :=
 theorem splitEdgeOnLine_handle (s : St) (e : Nat) (p : Pt) (d : Nat) : (s.splitEdgeOnLine e p d).2 = s.nV := by
   unfold splitEdgeOnLine; extract_lets; split <;> rfl
 
-theorem insertOnEdge_handle (s : St) (e : Nat) (p : Pt) (d : Nat) : (s.insertOnEdge e p d).2 = s.nV := by
+theorem insertOnEdge_handle (s : St) (e : Nat) (p : Pt) (d : Nat) : (s.insertOnEdge e p d).2.1 = s.nV := by
   unfold insertOnEdge
   split
   · unfold splitHalfEdge; rfl
@@ -294,13 +305,12 @@ theorem insertM_effect (s : St) (p : Pt) (d hint : Nat) (t : St) (v : Nat)
   · simp only [hF, if_true] at h
     cases hloc : s.locateOnLine p with
     | onEdge e =>
-      simp only [hloc, Option.some.injEq] at h
-      have hv := splitEdgeOnLine_handle s e p d
-      rw [h] at hv
+      simp only [hloc, Option.some.injEq, Prod.mk.injEq] at h
+      obtain ⟨rfl, rfl⟩ := h
       right
-      refine ⟨hv, Or.inr ⟨hpos, ?_⟩⟩
-      have := Bal.of (grows_splitEdgeOnLine s e p d) rfl
-      rw [h] at this; exact this
+      refine ⟨splitEdgeOnLine_handle s e p d, Or.inr ⟨hpos, ?_⟩⟩
+      have g := Grows.trans (grows_splitEdgeOnLine s e p d) (grows_splitFlags _ (s.isFlag e) e s.nE)
+      exact Bal.of g rfl
     | onVertex w =>
       simp only [hloc, Option.some.injEq, Prod.mk.injEq] at h
       obtain ⟨rfl, rfl⟩ := h
@@ -341,7 +351,8 @@ theorem insertM_effect (s : St) (p : Pt) (d hint : Nat) (t : St) (v : Nat)
         obtain ⟨rfl, rfl⟩ := h
         right
         exact ⟨insertOnEdge_handle s e p d,
-          Or.inr ⟨hpos, (bal_insertOnEdge s e p d).trans (bal_legalizeVertex _ _)⟩⟩
+          Or.inr ⟨hpos, ((bal_insertOnEdge s e p d).trans (Bal.of (grows_splitFlags _ _ _ _) rfl)).trans
+            (bal_legalizeVertex _ _)⟩⟩
       | onVertex w =>
         simp only [hloc, Option.some.injEq, Prod.mk.injEq] at h
         obtain ⟨rfl, rfl⟩ := h
